@@ -145,10 +145,12 @@ static int upipe_ts_tstd_set_flow_def(struct upipe *upipe,
         return UBASE_ERR_INVALID;
 
     struct upipe_ts_tstd *upipe_ts_tstd = upipe_ts_tstd_from_upipe(upipe);
-    UBASE_RETURN(uref_block_flow_get_octetrate(flow_def,
-                                               &upipe_ts_tstd->octetrate))
+    uint64_t octetrate;
+    UBASE_RETURN(uref_block_flow_get_octetrate(flow_def, &octetrate))
     uint64_t bs;
     UBASE_RETURN(uref_block_flow_get_buffer_size(flow_def, &bs))
+    /* only a definition that is accepted may change the state */
+    upipe_ts_tstd->octetrate = octetrate;
 
     if (bs * UCLOCK_FREQ / upipe_ts_tstd->octetrate >
             upipe_ts_tstd->max_delay) {
